@@ -822,7 +822,40 @@ func (w *world) buildOp(always bool, targets []string, line string) string {
 		w.fail("incr-ok-clean-fails", fmt.Sprintf(
 			"the incremental build succeeded (executed %v) but a from-scratch build of the same sources fails: %s", obs.exec, cmsg))
 	case obs.class != "ok" && cclass == "ok":
-		w.counts["incr-fails-clean-ok"]++
+		// incremental fails, clean succeeds: only an obstructed output of the failing rule explains that
+		// (theorem clean_fails_incremental_fails is the other direction)
+		obstructed := false
+		if obs.class == "builderr" {
+			obstructed = isDir(w.out(obs.exec[len(obs.exec)-1] + ".fileset"))
+		}
+		if obstructed {
+			w.counts["incr-fails-clean-ok:obstructed-output"]++
+		} else {
+			w.fail("incr-fails-clean-ok", fmt.Sprintf(
+				"the incremental build gives %s (executed %v, %s) with no directory on the failing rule's output, but a from-scratch build of the same sources succeeds",
+				obs.class, obs.exec, obs.errMsg))
+		}
+	case obs.class == "loaderr" && cclass != "loaderr", obs.class != "loaderr" && cclass == "loaderr":
+		w.fail("load-outcome-differs", fmt.Sprintf("loading gives %s incrementally and %s from scratch (%s / %s)",
+			obs.class, cclass, obs.errMsg, cmsg))
+	case obs.class == "builderr" && cclass == "builderr":
+		w.counts["oracle:both-fail"]++
+	}
+
+	// ---- oracle: nothing of a failed rule is cached: the same build again executes the failed
+	// rule again (and only rules that were not finished before), and the cache does not grow
+	if obs.class == "builderr" {
+		fr := obs.exec[len(obs.exec)-1]
+		w.barrier()
+		c2, e2, _ := realBuild(w.root, false, targets)
+		n2 := cacheCount(w.root)
+		w.counts["oracle:failed-rule-rebuild-checked"]++
+		again := len(e2) > 0 && e2[len(e2)-1] == fr
+		if c2 != "builderr" || !again || n2 != obs.cache {
+			w.fail("failed-rule-cached", fmt.Sprintf(
+				"the execution of %s failed; the same build again gave %s, executed %v (cache entries %d -> %d): the failed rule must be executed again and nothing of it may be cached",
+				fr, c2, e2, obs.cache, n2))
+		}
 	}
 
 	// ---- oracle: a build with nothing changed executes no rule
